@@ -199,14 +199,18 @@ def units(tier):
 _LAWS = {}
 
 
-def check_law(law, data=None, value=None):
+EMBED_CAP = 24
+
+
+def check_law(law, data=None, value=None, embed=None):
     fam, name, mkA, mkB, ins, vals, kw = law
     A, B = mkA(), mkB()
     out_v = []
     def bad(kind, case, detail):
         out_v.append({"sig": "C12/%s/%s" % (fam, kind), "case": case, "detail": "%s [%s]: %s" % (fam, name, detail)})
     n_nt = 0
-    for x in (ins if data is None and value is None else ([data] if data is not None else [])):
+    n_emb = 0
+    for x in (ins if data is None and value is None and not embed else ([data] if data is not None else [])):
         a = out(lambda: T.norm(A.parse(x, **kw)))
         b = out(lambda: T.norm(B.parse(x, **kw)))
         if a[0] == "ok" and b[0] == "ok":
@@ -215,7 +219,7 @@ def check_law(law, data=None, value=None):
                 bad("parse-values-differ", {"parse": x}, "parse(%s): left %r, right %r" % (x.hex(), a[1], b[1]))
         elif a[0] != b[0]:
             bad("parse-accept-differs", {"parse": x}, "parse(%s): left %r, right %r" % (x.hex(), a, b))
-    for v in (vals if data is None and value is None else ([value[0]] if value is not None else [])):
+    for v in (vals if data is None and value is None and not embed else ([value[0]] if value is not None else [])):
         a = out(lambda: A.build(v, **kw))
         b = out(lambda: B.build(v, **kw))
         if a[0] == "ok" and b[0] == "ok":
@@ -224,12 +228,53 @@ def check_law(law, data=None, value=None):
                 bad("build-bytes-differ", {"build": repr(v)}, "build(%r): left %s, right %s" % (v, a[1].hex(), b[1].hex()))
         elif a[0] != b[0]:
             bad("build-accept-differs", {"build": repr(v)}, "build(%r): left %r, right %r" % (v, a, b))
-    if data is None and value is None:
+    if data is None and value is None or embed:
+        # interchangeable also as a part: a Struct member (value given, None, key absent), a Sequence item, an Array element
+        import construct as C
+        hosts = {
+            "struct": (lambda X: C.Struct("h" / C.Byte, "m" / X, "t" / C.Byte), lambda x: b"\x01" + x + b"\x02",
+                       lambda v: [dict(h=1, m=v, t=2), dict(h=1, t=2)]),
+            "sequence": (lambda X: C.Sequence(C.Byte, X), lambda x: b"\x01" + x, lambda v: [[1, v]]),
+            "array": (lambda X: C.Array(2, X), lambda x: x + x, lambda v: [[v, v]]),
+        }
+        for hname, (mkH, wrap_in, wrap_vals) in hosts.items():
+            if kw and hname != "array":
+                continue        # the law's expressions refer to keyword arguments as this.<key>: a scope-pushing host would hide them
+            HA, HB = mkH(A), mkH(B)
+            for x in ins[:EMBED_CAP]:
+                xx = wrap_in(x)
+                case = {"embed": hname, "parse": xx}
+                if embed and embed != case:
+                    continue
+                n_emb += 1
+                a = out(lambda: T.norm(HA.parse(xx, **kw)))
+                b = out(lambda: T.norm(HB.parse(xx, **kw)))
+                if a[0] == "ok" and b[0] == "ok":
+                    n_nt += 1
+                    if not T.eqv(a[1], b[1]):
+                        bad("embedded-parse-values-differ", case, "inside %s, parse(%s): left %r, right %r" % (hname, xx.hex(), a[1], b[1]))
+                elif a[0] != b[0]:
+                    bad("embedded-parse-accept-differs", case, "inside %s, parse(%s): left %r, right %r" % (hname, xx.hex(), a, b))
+            for v in list(vals[:EMBED_CAP]) + [None]:
+                for vv in wrap_vals(v):
+                    case = {"embed": hname, "build": repr(vv)}
+                    if embed and embed != case:
+                        continue
+                    n_emb += 1
+                    a = out(lambda: HA.build(vv, **kw))
+                    b = out(lambda: HB.build(vv, **kw))
+                    if a[0] == "ok" and b[0] == "ok":
+                        n_nt += 1
+                        if a[1] != b[1]:
+                            bad("embedded-build-bytes-differ", case, "inside %s, build(%r): left %s, right %s" % (hname, vv, a[1].hex(), b[1].hex()))
+                    elif a[0] != b[0]:
+                        bad("embedded-build-accept-differs", case, "inside %s, build(%r): left %r, right %r" % (hname, vv, a, b))
+    if data is None and value is None and not embed:
         sa = out(lambda: A.sizeof(**kw))
         sb = out(lambda: B.sizeof(**kw))
         if sa[0] != sb[0] or (sa[0] == "ok" and sa[1] != sb[1]):
             bad("sizeof-differs", {"sizeof": True}, "sizeof: left %r, right %r" % (sa, sb))
-    return out_v, n_nt
+    return out_v, n_nt, n_emb
 
 
 def run_unit(unit, tier):
@@ -237,8 +282,8 @@ def run_unit(unit, tier):
     if tier not in _LAWS:
         _LAWS[tier] = laws(tier)
     law = _LAWS[tier][unit["index"]]
-    vs, n_nt = check_law(law)
-    n = len(law[4]) + len(law[5]) + 1
+    vs, n_nt, n_emb = check_law(law)
+    n = len(law[4]) + len(law[5]) + 1 + n_emb
     r.states += n
     r.evals += n
     r.transitions += 2 * n
@@ -260,6 +305,8 @@ def replay(case):
         if not cands:
             return []
         law = cands[0]
+    if "embed" in case:
+        return check_law(law, embed={k: case[k] for k in ("embed", "parse", "build") if k in case})[0]
     if "parse" in case:
         return check_law(law, data=case["parse"])[0]
     if "build" in case:
